@@ -7,7 +7,7 @@ import (
 )
 
 var verifC07Seeds = []string{
-	"// header\npackage p\n\nimport \"fmt\"\n\nvar top§ = fmt.Sprint(1)\n\ncss k(§ string) {\n\tcolor: { § };\n}\n\ntempl a(§ string, xs []string) {\n\t<div title={ § } hidden?={ § == \"\" } { attrs(§)... }\n\t\tif § != \"\" {\n\t\t\tclass=\"c\"\n\t\t}\n\t>é { § }</div>\n\tif § == \"a\" {\n\t\tx\n\t} else if § == \"b\" {\n\t\ty\n\t}\n\tfor _, v := range xs {\n\t\t{ v }{ § }\n\t}\n\tswitch § {\n\t\tcase \"q\":\n\t\t\tz\n\t}\n\t{{ w := § }}\n\t@b(w)\n\t<script>var q = {{ § }};</script>\n\t{ fmt.Sprint(\n\t\t§,\n\t\t\"é\",\n\t) }\n}\n\ntempl b(s string) {\n\t{ s }\n}\n\nfunc attrs(s string) map[string]any {\n\treturn nil\n}\n",
+	"// header\npackage p\n\nimport \"fmt\"\n\nvar top§ = fmt.Sprint(1)\n\ncss k(§ string) {\n\tcolor: { § };\n}\n\ntempl a(§ string, xs []string) {\n\t<div title={ § } hidden?={ § == \"\" } { attrs(§)... }\n\t\tif § != \"\" {\n\t\t\tclass=\"c\"\n\t\t}\n\t>é { § }</div>\n\tif § == \"a\" {\n\t\tx\n\t} else if § == \"b\" {\n\t\ty\n\t}\n\tfor _, v := range xs {\n\t\t{ v }{ § }\n\t}\n\tswitch § {\n\t\tcase \"q\":\n\t\t\tz\n\t\tcase \"r\":\n\t\t\t<b>k</b>\n\t\tdefault:\n\t\t\tm\n\t}\n\t<b>k</b>\n\t{{ w := § }}\n\t<i class={ § }></i>\n\t@b(w)\n\t<script>var q = {{ § }};</script>\n\t{ fmt.Sprint(\n\t\t§,\n\t\t\"é\",\n\t) }\n}\n\ntempl b(s string) {\n\t{ s }\n}\n\nfunc attrs(s string) map[string]any {\n\treturn nil\n}\n",
 }
 
 func verifC07Ident(name string, max int) string {
@@ -44,12 +44,16 @@ func VerifC07Generate() {
 	if symBool("multibyte") {
 		id += "é"
 	}
+	crlf := symBool("crlf")
 	src := ""
 	for i := 0; i < len(seed); i++ {
 		if seed[i] == 0xC2 && i+1 < len(seed) && seed[i+1] == 0xA7 {
 			src += id
 			i++
 			continue
+		}
+		if seed[i] == '\n' && crlf {
+			src += "\r"
 		}
 		src += string(seed[i])
 	}
